@@ -20,7 +20,10 @@ func init() {
 
 // ---- C10: distributed execution equals central execution over the union ----------------------
 
-var distAggrs = []string{"sum", "min", "max", "count", "group", "avg", "stddev", "topk(2,", "bottomk(1,", "quantile(0.5,"}
+var distAggrs = []string{"sum", "min", "max", "count", "group", "avg", "stddev", "topk(2,", "bottomk(1,", "quantile(0.5,",
+	// a parameter that reads series, bare and inside arithmetic (seed H5): each partition would
+	// compute another k or q from its own part
+	"topk(scalar(count(m1)) - 1,", "bottomk(scalar(count(m1)) - 2,", "topk(scalar(count(m1)),", "quantile(scalar(count(m1)) / 10,"}
 
 func GenDist(t *testing.T, r *rand.Rand, prop, tier string, _ *atomic.Int64) *Case {
 	profile := []string{"aggr", "compose", "binary", "rangefn", "func", "fallback"}[r.Intn(6)]
